@@ -105,8 +105,10 @@ func (p *Parser) Enter(in ast.Node) (ast.Node, bool) {
 				p.Migration.RemoveColumn(alter.Table.Name.O, alter.Specs[i].OldColumnName.Name.O)
 
 			case ast.AlterTableDropPrimaryKey:
+				p.Migration.RemoveIndex(alter.Table.Name.O, "primary_key")
 
 			case ast.AlterTableDropIndex:
+				p.Migration.RemoveIndex(alter.Table.Name.O, alter.Specs[i].Name)
 
 			case ast.AlterTableDropForeignKey:
 				p.Migration.RemoveForeignKey(alter.Table.Name.O, alter.Specs[i].Name)
